@@ -11,6 +11,7 @@ BT = [dict(rule='R8', lit='BTreeMap::new()', to='VBTreeMap::new()', note='BTreeM
 ITOA = [dict(rule='R5', lit='itoa::Buffer::new()', to='ItoaBuffer::new()', note='itoa shim'),
         dict(rule='R5', lit='buf.format(*value).as_bytes()', to='buf.format(*value).as_slice()', note='itoa shim returns Vec<u8>')]
 UNIT = dict(
+    rlimit=120,
     properties=['C01', 'C03', 'C14', 'C19'],   # default tags; per-function `props` below override
     prelude=['io.rs', 'pdfobj.rs', 'absobj.rs', 'containers.rs'],
     spec=['spec.rs', 'xrefspec.rs', 'docspec.rs'],
